@@ -330,11 +330,92 @@ func sweepResult(pj *simdjson.ParsedJson) error {
 		},
 	}
 	steps = append(steps, func() {
+		// loops a caller would write, carrying on after per-element errors: each must end
+		// within as many rounds as the tape has entries
+		bound := len(pj.Tape) + 2
+		calls := 0
+		pj.ForEach(func(i simdjson.Iter) error {
+			if calls++; calls > bound {
+				panic(errNonTerm)
+			}
+			i.MarshalJSON()
+			return nil
+		})
+		it := pj.Iter()
+		for n := 0; it.Advance() != simdjson.TypeNone; n++ {
+			if n > bound {
+				panic(errNonTerm)
+			}
+			it.Root(nil)
+		}
+		it = pj.Iter()
+		var d simdjson.Iter
+		for n := 0; ; n++ {
+			t, _ := it.AdvanceIter(&d)
+			if t == simdjson.TypeNone {
+				break
+			}
+			if n > bound {
+				panic(errNonTerm)
+			}
+			d.Type()
+		}
+	})
+	steps = append(steps, func() {
+		// accessors called on an iterator wherever a walk can leave it: after MarshalJSON consumed
+		// the document, at the end of an AdvanceInto walk, and at every entry of small tapes
+		poke := func(it simdjson.Iter) {
+			c := it
+			c.Root(nil)
+			c = it
+			c.FindElement(nil, "a")
+			if !deep {
+				c = it
+				c.Interface()
+			}
+			c = it
+			c.Object(nil)
+			c = it
+			c.Array(nil)
+			c = it
+			c.StringBytes()
+			c.StringCvt()
+			c.Int()
+			c.Uint()
+			c.Float()
+			c.Bool()
+			c.PeekNext()
+			c.PeekNextTag()
+			var d simdjson.Iter
+			c.AdvanceIter(&d)
+			c = it
+			c.Advance()
+			c = it
+			c.AdvanceInto()
+			c = it
+			c.MarshalJSON()
+		}
+		it := pj.Iter()
+		it.MarshalJSON()
+		poke(it)
+		it = pj.Iter()
+		small := len(pj.Tape) <= 64
+		for n := 0; n <= len(pj.Tape)+2; n++ {
+			if small || n+3 >= len(pj.Tape) {
+				poke(it)
+			}
+			if it.AdvanceInto() == simdjson.TagEnd {
+				break
+			}
+		}
+		poke(it)
+	})
+	steps = append(steps, func() {
 		if err := sweepContainers(pj, deep); err != nil {
 			panic(err)
 		}
 	})
-	names := []string{"Advance walk", "ForEach walk", "Object.Parse walk", "Interface", "MarshalJSON", "FindElement/Peek/AdvanceIter", "Serialize", "container accessors"}
+	names := []string{"Advance walk", "ForEach walk", "Object.Parse walk", "Interface", "MarshalJSON", "FindElement/Peek/AdvanceIter", "Serialize", "root-level loops", "accessors on a spent iterator", "container accessors"}
 	for i, f := range steps {
 		if deep && (i == 1 || i == 2 || i == 3) {
 			continue
